@@ -82,6 +82,16 @@ def Convert2Num(text):
     raise ValueError("Expected Number got '{0}'".format(text))
     # return None
 
+def Convert2RealNum(text):
+    """converts text to python type in order
+       Int, hex, Float
+       ValueError if can't, periods and counts are not complex
+    """
+    value = Convert2Num(text)
+    if isinstance(value, complex):
+        raise ValueError("Expected real Number got '{0}'".format(text))
+    return value
+
 def Convert2CoordNum(text):
     """converts text to python type in order
        FracDeg, Int, hex, Float, Complex
@@ -1000,7 +1010,10 @@ class Builder(object):
                     index +=1
 
                 elif connective == 'keep':
-                    keep = max(0, int(Convert2Num(tokens[index])))
+                    try:
+                        keep = max(0, int(Convert2RealNum(tokens[index])))
+                    except OverflowError:
+                        raise ValueError("Expected finite Number got '{0}'".format(tokens[index]))
                     index +=1
 
                 elif connective == 'cycle':
@@ -1302,7 +1315,7 @@ class Builder(object):
                 index += 1
 
                 if connective == 'at':
-                    period = max(0.0, Convert2Num(tokens[index]))
+                    period = max(0.0, Convert2RealNum(tokens[index]))
                     index +=1
 
                 elif connective == 'be':
@@ -2075,7 +2088,7 @@ class Builder(object):
             value =  abs(Convert2Num(tokens[index])) #convert text to number if valid format
             index +=1
 
-            if isinstance(value, str):
+            if isinstance(value, str) or value in (float('inf'), ):
                 msg = "Error building %s. invalid repeat %s." %\
                       (command, value)
                 raise excepting.ParseError(msg, tokens, index)
@@ -2896,7 +2909,7 @@ class Builder(object):
                 if connective in ['at']:
                     # parse period direct or indirect
                     try:  #parse direct
-                        period = max(0.0, Convert2Num(tokens[index]))  # period is number
+                        period = max(0.0, Convert2RealNum(tokens[index]))  # period is number
                         index += 1  # eat token
 
                     except ValueError:  # parse indirect
